@@ -1,7 +1,9 @@
 (* C01  Typed register set/get is lossless and constraint-enforcing.
    Statements only; proofs in Proof/RegLemmas.v; model Model/RegTable.v (values as raw bit patterns,
    floats as IEEE-754 bit patterns; tied to src/registers/core.c by ./check C01). *)
-From Ufw Require Import Base.Bits Model.RegTable Proof.RegLemmas.
+From Coq Require Import ZArith Floats.SpecFloat.
+From Flocq Require Import IEEE754.Binary IEEE754.Bits.
+From Ufw Require Import Base.Bits Model.RegTable Proof.RegLemmas Proof.FloatOrder.
 Local Open Scope N_scope.
 
 (* the words of a value in the table's byte order decode back to it: every type, both orders, every bit pattern *)
@@ -70,6 +72,41 @@ Proof. exact set_unsafe_same_as_checked. Qed.
 Print Assumptions C01_unsafe_same.
 
 (* non-vacuity: a big-endian table with a range-constrained s32 register; NaN refused *)
+
+(* ---- the float ordering of the model is IEEE-754's (Flocq) ---- *)
+(* for every pair of 32-bit patterns the model's "less or equal" is the comparison of the two numbers Flocq decodes from them
+   (NaN unordered, -0 = +0, infinities at the ends, subnormals below the normals); no axioms *)
+Theorem C01_float32_order_is_ieee : forall a b, a < 2 ^ 32 -> b < 2 ^ 32 ->
+  f_le TF32 a b = cmp_le (SFcompare (ff2sf (binary_float_of_bits_aux 23 8 (Z.of_N a))) (ff2sf (binary_float_of_bits_aux 23 8 (Z.of_N b)))).
+Proof. exact f_le32_is_ieee. Qed.
+Print Assumptions C01_float32_order_is_ieee.
+Theorem C01_float64_order_is_ieee : forall a b, a < 2 ^ 64 -> b < 2 ^ 64 ->
+  f_le TF64 a b = cmp_le (SFcompare (ff2sf (binary_float_of_bits_aux 52 11 (Z.of_N a))) (ff2sf (binary_float_of_bits_aux 52 11 (Z.of_N b)))).
+Proof. exact f_le64_is_ieee. Qed.
+Print Assumptions C01_float64_order_is_ieee.
+(* the same against Flocq's validated binary32 / binary64 numbers and its IEEE comparison Bcompare; the validity proofs inside
+   b32_of_bits / b64_of_bits use the real-number axioms of Coq's standard library (listed below by Print Assumptions and named
+   in the trusted base); nothing else in the development depends on them *)
+Theorem C01_float32_order_is_Bcompare : forall a b, a < 2 ^ 32 -> b < 2 ^ 32 ->
+  f_le TF32 a b = cmp_le (Bcompare 24 128 (b32_of_bits (Z.of_N a)) (b32_of_bits (Z.of_N b))).
+Proof. exact f_le32_is_Bcompare. Qed.
+Print Assumptions C01_float32_order_is_Bcompare.
+Theorem C01_float64_order_is_Bcompare : forall a b, a < 2 ^ 64 -> b < 2 ^ 64 ->
+  f_le TF64 a b = cmp_le (Bcompare 53 1024 (b64_of_bits (Z.of_N a)) (b64_of_bits (Z.of_N b))).
+Proof. exact f_le64_is_Bcompare. Qed.
+Print Assumptions C01_float64_order_is_Bcompare.
+(* the classes the (de)serialiser accepts - zero and normal numbers - in Flocq's terms: zero, or finite with the hidden bit set *)
+Theorem C01_float32_acceptable_is_ieee : forall a, a < 2 ^ 32 ->
+  f_acceptable TF32 a = match ff2sf (binary_float_of_bits_aux 23 8 (Z.of_N a)) with
+                        | S754_zero _ => true | S754_finite _ m _ => (8388608 <=? Zpos m)%Z | _ => false end.
+Proof. exact acceptable32_is_ieee. Qed.
+Print Assumptions C01_float32_acceptable_is_ieee.
+Theorem C01_float64_acceptable_is_ieee : forall a, a < 2 ^ 64 ->
+  f_acceptable TF64 a = match ff2sf (binary_float_of_bits_aux 52 11 (Z.of_N a)) with
+                        | S754_zero _ => true | S754_finite _ m _ => (4503599627370496 <=? Zpos m)%Z | _ => false end.
+Proof. exact acceptable64_is_ieee. Qed.
+Print Assumptions C01_float64_acceptable_is_ieee.
+
 Example C01_example :
   let a := {| a_base := 100; a_size := 4; a_readable := true; a_writeable := true; a_skip := false; a_has_read := true;
               a_has_write := true; a_is_mem := true; a_words := [1;2;3;4]; a_first := 0; a_last := 0; a_count := 0 |} in
